@@ -3,6 +3,34 @@ pkg = test package under harness/, level = evidence level, jobs[tier] = list of
 {part, shards, checks (rapid cases per shard), journal, timeout, scale}."""
 
 CHECKS = {
+    'C03': dict(pkg='c03', level='exploration',
+        technique='stateful property-based testing: rapid-generated scripts (records, handler releases, CancelRequest) against a real Server in a testing/synctest bubble with generated hook delays; history judged at every quiescent point by a sequential reference model',
+        level_text='Scenarios biased to parked notification handlers followed by later records; the safety half (a notification has returned before any later request is invoked) is checked on the logical clock of the handler log, the liveness half (later requests start as soon as no earlier notification is unfinished; a running call delays nothing) at every sound quiescent point of the bubble. Exploration.',
+        level_note='Trusts the sequential model in harness/oracle/server.go (arrival order, notification barrier, id reservations, slots) and refrpc; races the model cannot decide are classified dont-care (DESIGN section 7); schedule coverage as in DESIGN section 10.',
+        jobs=dict(
+        quick=[dict(part='scenarios', shards=4, checks=1500, journal=True)],
+        thorough=[dict(part='scenarios', shards=14, checks=30000, journal=True, timeout=3000)])),
+    'C06': dict(pkg='c06', level='exploration',
+        technique='stateful property-based testing: rapid-generated scripts (records, handler releases, CancelRequest) against a real Server in a testing/synctest bubble with generated hook delays; history judged at every quiescent point by a sequential reference model',
+        level_text='Scenarios with Concurrency 1-4 and batches larger than the limit; an entry/exit counter in the gated handlers must never exceed the limit, at quiescence no dispatched request may wait while a slot is free, built-ins count against the limit, a call cancelled while waiting for a slot is answered -32097 and never runs. Exploration.',
+        level_note='Trusts the sequential model in harness/oracle/server.go (arrival order, notification barrier, id reservations, slots) and refrpc; races the model cannot decide are classified dont-care (DESIGN section 7); schedule coverage as in DESIGN section 10.',
+        jobs=dict(
+        quick=[dict(part='scenarios', shards=4, checks=1500, journal=True)],
+        thorough=[dict(part='scenarios', shards=14, checks=30000, journal=True, timeout=3000)])),
+    'C07': dict(pkg='c07', level='exploration',
+        technique='stateful property-based testing: rapid-generated scripts (records, handler releases, CancelRequest) against a real Server in a testing/synctest bubble with generated hook delays; history judged at every quiescent point by a sequential reference model',
+        level_text='Histories over a small id pool with constant reuse, CancelRequest for in-flight / finished / unknown ids; at every quiescent point the cancelled-context set and the reserved-id snapshot must equal the model, duplicates of in-flight ids are rejected without disturbing the first call, ids are accepted again after any reply. Exploration.',
+        level_note='Trusts the sequential model in harness/oracle/server.go (arrival order, notification barrier, id reservations, slots) and refrpc; races the model cannot decide are classified dont-care (DESIGN section 7); schedule coverage as in DESIGN section 10.',
+        jobs=dict(
+        quick=[dict(part='scenarios', shards=4, checks=1500, journal=True)],
+        thorough=[dict(part='scenarios', shards=14, checks=30000, journal=True, timeout=3000)])),
+    'C01': dict(pkg='c01', level='exploration',
+        technique='stateful property-based testing: rapid-generated scripts of inbound records / handler releases run against a real Server in a testing/synctest bubble with generated hook delays; history judged at every quiescent point by a sequential reference model (refrpc + arrival order / barrier model)',
+        level_text='Generated scenarios (several records in flight, handlers finishing in any order with result/error/unmarshalable outcomes, bursts of racing steps, schedules steered through hook delays) are executed against the real server; at every sound quiescent point and at the end the wire log and the handler log must satisfy exactly-once, correlation, grouping, ordering and silence for messages with nothing to report. Exploration.',
+        level_note='Trusts the sequential model in harness/oracle/server.go and refrpc; schedule coverage is what hook sites, bursts and gated handlers can express (DESIGN section 10).',
+        jobs=dict(
+        quick=[dict(part='scenarios', shards=4, checks=1500, journal=True)],
+        thorough=[dict(part='scenarios', shards=14, checks=30000, journal=True, timeout=3000)])),
     'C02': dict(pkg='c02', level='exploration',
         technique='differential oracle: an independent JSON-RPC 2.0 member classifier (admissible-outcome sets) against a real Server in a synctest bubble; complete product of per-field variants enumerated, rapid-generated batches/mutations beyond it; liveness probe after every record',
         level_text='Every combination of per-field variants of a request object (30240) is sent as a single record to a real server on a plain and a push-enabled configuration; replies (or their absence, decided at a sound quiescent point of the bubble), handler invocations and a follow-up probe call are compared with a reference classifier written from the spec. Batches, random near-valid JSON and byte mutations are searched beyond the product. Exploration; exhaustive for the product only.',
